@@ -59,6 +59,8 @@ func handle(c *Case) (out map[string]any) {
 		return jsonEnc(c)
 	case "json.dec":
 		return jsonDec(c)
+	case "json.depth":
+		return jsonDepth(c)
 	}
 	return map[string]any{"harness_error": "unknown kind " + c.K}
 }
